@@ -98,7 +98,7 @@ impl Datagrams<'_> {
 #[derive(Default)]
 pub(super) struct DatagramState {
     /// Number of bytes of datagrams that have been received by the local transport but not
-    /// delivered to the application
+    /// delivered to the application, counting empty datagrams as one byte each
     pub(super) recv_buffered: usize,
     pub(super) incoming: VecDeque<Datagram>,
     pub(super) outgoing: VecDeque<Datagram>,
@@ -126,14 +126,25 @@ impl DatagramState {
         }
 
         let was_empty = self.recv_buffered == 0;
-        while datagram.data.len() + self.recv_buffered > window {
+        let cost = Self::recv_cost(&datagram.data);
+        while cost + self.recv_buffered > window {
             debug!("dropping stale datagram");
-            self.recv();
+            if self.recv().is_none() {
+                break;
+            }
         }
 
-        self.recv_buffered += datagram.data.len();
+        self.recv_buffered += cost;
         self.incoming.push_back(datagram);
         Ok(was_empty)
+    }
+
+    /// Number of bytes a buffered incoming datagram is charged against the receive buffer
+    ///
+    /// Every buffered datagram occupies memory, so even an empty one is charged one byte. This
+    /// bounds the number of datagrams a peer can make us buffer by the size of the receive buffer.
+    fn recv_cost(data: &Bytes) -> usize {
+        data.len().max(1)
     }
 
     fn make_space_for(&mut self, datagram_len: usize, send_buffer_size: usize) {
@@ -203,7 +214,7 @@ impl DatagramState {
 
     pub(super) fn recv(&mut self) -> Option<Bytes> {
         let x = self.incoming.pop_front()?.data;
-        self.recv_buffered -= x.len();
+        self.recv_buffered -= Self::recv_cost(&x);
         Some(x)
     }
 }
